@@ -26,12 +26,18 @@ def setup():
 
 
 def sizes(ctx, quick, thorough):
-    return thorough if ctx.tier == "thorough" else quick
+    if ctx.tier == "thorough":
+        return thorough
+    if getattr(ctx, "search", False):
+        return max(quick, min(thorough, quick * 6))
+    return quick
 
 
 def seeds(ctx):
     if ctx.tier == "thorough":
         return [ctx.seed * 1000 + k for k in range(4)]
+    if getattr(ctx, "search", False):
+        return [ctx.seed, ctx.seed + 7919, ctx.seed + 104729]
     return [ctx.seed]
 
 
